@@ -44,7 +44,8 @@ def exhaustive_ok(tier, di):
 def run_under(loop, b, hub, q, opn, variables, choose):
     b.gate = hub.gate
     b.calls.clear()
-    (res,), trace, left = drive(loop, lambda: [b.engine.execute(q, operation_name=opn, variables=variables)], [hub], choose)
+    with er.guard(query=q, operation_name=opn, variables=variables, sdl=print_sdl(b.model)):
+        (res,), trace, left = drive(loop, lambda: [b.engine.execute(q, operation_name=opn, variables=variables)], [hub], choose)
     b.gate = None
     return res, trace, left
 
